@@ -459,6 +459,39 @@ fn structured_full_blocks(rep: &mut Report, part: usize, parts: usize) {
             }
         }
     }
+    // weak blocks: many small coefficients whose contributions add up - the transform of a block with one
+    // to three small samples (every position; what the Annex A -5..5 sets contain now and then), and dense
+    // blocks of coefficients in -1..1 / -2..2
+    if part == 0 {
+        let mut rng = Rng::new(0xC10A, 0);
+        for pos in 0..64usize {
+            for amp in [-8i32, -5, -4, -3, 3, 4, 5, 8] {
+                let mut p = [[0f64; 8]; 8];
+                p[pos / 8][pos % 8] = amp as f64;
+                if pos % 3 == 1 {
+                    p[(pos / 8 + 3) % 8][(pos % 8 + 5) % 8] = (amp / 2) as f64;
+                }
+                let f = fdct(&p);
+                let mut c = [[0i32; 8]; 8];
+                for v in 0..8 {
+                    for u in 0..8 {
+                        c[v][u] = round_half_away(f[v][u]);
+                    }
+                }
+                cases.push(c);
+                rep.count("weak_blocks");
+            }
+        }
+        for k in 0..600 {
+            let lim = 1 + (k % 2) as i64;
+            let mut c = [[0i32; 8]; 8];
+            for v in c.iter_mut().flatten() {
+                *v = rng.range(-lim, lim) as i32;
+            }
+            cases.push(c);
+            rep.count("weak_blocks");
+        }
+    }
     for chunk in cases.chunks(512) {
         let blocks: Vec<DecodedDctBlock> = chunk.iter().map(full_block).collect();
         let got = match catch(|| real_residuals(&blocks)) {
@@ -531,6 +564,7 @@ pub fn run(ctx: &Ctx) -> (Report, String) {
         rep.require("cropped_grid_planes_partial_columns", 500);
         rep.require("cropped_grid_planes_with_blocks_outside", 100);
         rep.require("structured_full_blocks", 30_000);
+        rep.require("weak_blocks", 1000);
     }
     (rep, rule())
 }
